@@ -90,14 +90,14 @@ def one_call(res, g, phi, tap, ctx):
     draws = [e[2] for e in tap.log[n0:] if e[0] == "random"]
     res.count("input_events", len(mg.events))
     if mg.events or not same_snapshot(snap, snapshot(mg)):
-        res.violate("input-graph-mutated", events=mg.events[:5], **ctx); return None
+        res.violate("input-graph-mutated", events=mg.events[:5], ctx=ctx); return None
     try:
         S = float(S)
     except Exception:
-        res.violate("return-value-not-a-number", got=repr(S), **ctx); return None
+        res.violate("return-value-not-a-number", got=repr(S), ctx=ctx); return None
     k = S * N
     if not (abs(k - round(k)) < 1e-9 and 1 <= round(k) <= N):
-        res.violate("return-value-not-a-multiple-of-1/N-in-range", got=S, N=N, **ctx); return None
+        res.violate("return-value-not-a-multiple-of-1/N-in-range", got=S, N=N, ctx=ctx); return None
     # which edges did the working copy lose?
     work = [c for c in mg.children if c.role == "working"]
     if len(work) == 1:
@@ -106,10 +106,10 @@ def one_call(res, g, phi, tap, ctx):
         kept = [e for e in edges if frozenset(e) not in removed]
         res.count("structure_checks")
         if node_ev:
-            res.violate("working-copy-changed-other-than-by-dropping-edges", events=node_ev[:4], **ctx); return None
+            res.violate("working-copy-changed-other-than-by-dropping-edges", events=node_ev[:4], ctx=ctx); return None
         want = largest_fraction(list(mg.nodes()), kept)
         if abs(S - want) > 1e-12:
-            res.violate("return-value-is-not-the-largest-component-fraction-of-the-retained-subgraph", got=S, want=want, dropped=len(removed), **ctx); return None
+            res.violate("return-value-is-not-the-largest-component-fraction-of-the-retained-subgraph", got=S, want=want, dropped=len(removed), ctx=ctx); return None
         if len(draws) == len(edges) and len(tap.log) - n0 == len(edges):
             res.count("per_edge_exact_checks")
             res.count("edges_decided", len(edges))
@@ -118,7 +118,7 @@ def one_call(res, g, phi, tap, ctx):
             boundary = {frozenset(e) for e, r in zip(edges, draws) if r == phi}
             if (removed ^ exp_removed) - boundary:
                 res.violate("edge-fate-not-decided-by-its-own-uniform-draw-against-phi",
-                            wrong=[(sorted(map(str, x))) for x in list((removed ^ exp_removed) - boundary)[:4]], **ctx); return None
+                            wrong=[(sorted(map(str, x))) for x in list((removed ^ exp_removed) - boundary)[:4]], ctx=ctx); return None
         else:
             res.count("draw_pattern_missing")
     else:
@@ -144,11 +144,11 @@ def run_case(case):
             if phi == 1.0:
                 res.count("phi1_checks")
                 if abs(S - full) > 1e-12:
-                    res.violate("phi=1-is-not-the-exact-largest-component-fraction", got=S, want=full, **ctx); break
+                    res.violate("phi=1-is-not-the-exact-largest-component-fraction", got=S, want=full, ctx=ctx); break
             if phi == 0.0:
                 res.count("phi0_checks")
                 if abs(S - 1.0 / N) > 1e-12:
-                    res.violate("phi=0-is-not-1/N", got=S, N=N, **ctx); break
+                    res.violate("phi=0-is-not-1/N", got=S, N=N, ctx=ctx); break
             if 0 < phi < 1 and E >= 2:
                 nt = True
             if phi > 0:
@@ -157,14 +157,14 @@ def run_case(case):
                     break
                 res.count("scripted_zero")
                 if abs(S0 - full) > 1e-12:
-                    res.violate("draws-of-0.0-did-not-keep-every-edge", got=S0, want=full, **ctx); break
+                    res.violate("draws-of-0.0-did-not-keep-every-edge", got=S0, want=full, ctx=ctx); break
             if phi < 1:
                 S1 = one_call(res, g, phi, RandomTap(preset={"random": "one"}), dict(ctx, schedule="all draws 1-2^-53"))
                 if S1 is None:
                     break
                 res.count("scripted_one")
                 if abs(S1 - 1.0 / N) > 1e-12:
-                    res.violate("draws-just-below-1-did-not-drop-every-edge", got=S1, N=N, **ctx); break
+                    res.violate("draws-just-below-1-did-not-drop-every-edge", got=S1, N=N, ctx=ctx); break
         res.nontrivial = nt
         res.sample = ctx0
         res.digest = digest([sorted(map(str, g.nodes())), sorted(sorted(map(str, e)) for e in g.edges()), case["seed"]])
